@@ -304,6 +304,11 @@ fn injection_cases() -> Vec<Case> {
     st("make bx9 get null do outer9() start make bx9 get [1] do inner9() start return bx9 end make q9 get inner9() q9.push(2) return q9 end shout(outer9())", Expect::Valid);
     // ... nor through an outer function when the body defines its own of the same name
     st("do lab9() start return \"root\" end do use9() start do lab9() start return 5 end return lab9() end shout(use9() minus 1) shout(lab9())", Expect::Valid);
+    // a function body is not typed from what an outer variable is where the definition stands:
+    // the variable may be re-declared or re-assigned with another type before the call
+    st("make da9 get 0 do de9() start return da9.len() end make da9 get [\"a\", \"b\"] shout(de9())", Expect::Valid);
+    st("make db9 get \"s\" do df9() start return db9 minus 1 end make db9 get 5 shout(df9())", Expect::Valid);
+    st("make dc9 get 1 do dg9() start if to say (dc9) start return 1 end return 0 end dc9 get true shout(dg9())", Expect::Valid);
     // a function that can fall off its end returns null there
     st("do fe9(a9) start if to say (a9 pass 10) start return 1 end end if to say (not fe9(5)) start shout(1) end", Expect::Valid);
     st("do ff9(a9) start if to say (a9 pass 10) start return true end end shout(ff9(5) or true)", Expect::Valid);
